@@ -117,13 +117,13 @@ func watchdog() {
 			still = 0
 			last = cur
 		}
-		if still >= 20 {
+		if still >= 60 {
 			buf := make([]byte, 8<<20)
 			n := runtime.Stack(buf, true)
 			if hangFile != "" {
 				_ = os.WriteFile(hangFile, buf[:n], 0o644)
 			}
-			fmt.Fprintf(os.Stderr, "WATCHDOG: no controller progress for 20s\n")
+			fmt.Fprintf(os.Stderr, "WATCHDOG: no controller progress for 60s\n")
 			os.Exit(3)
 		}
 	}
@@ -204,9 +204,16 @@ func runPlan(t *testing.T, def *PropDef, p *Plan) (o *Outcome) {
 	defer running.Store(false)
 	progress()
 	lastDeadlock.Store(nil)
+	lastCtrlBlocked.Store(false)
 	o = def.Run(t, p)
 	if o == nil {
 		o = &Outcome{}
+	}
+	if lastCtrlBlocked.Load() && lastDeadlock.Load() == nil {
+		// the run was abandoned because the controller could not take a white-box dump (a descheduled task held
+		// the lock) and no lock cycle exists: nothing can be concluded from it
+		o.Sig, o.Detail = "", ""
+		o.Inconcl++
 	}
 	if d := lastDeadlock.Load(); d != nil {
 		// a cycle of tasks each waiting for a lock the next one holds: reported whatever else the run's own
